@@ -442,6 +442,62 @@ func main() {
 			}
 		}
 	}
+	// option semantics that no compilation can show: (a) specialname=X appends "_" to every reference to a field whose
+	// Go name is X, and nothing else changes; blanks around the name are
+	// trimmed and the option may be given more than once (protoc splits parameters at commas, so a list inside one
+	// value cannot arrive); (b) a request without apiversion behaves like apiversion=v1
+	var optReqs int64
+	single := func(s schema, param string) (string, string) {
+		resp, e := runPlugin(plugin, s.fds, s.gen, param)
+		optReqs++
+		if e != "" || resp.Error != nil || len(resp.File) != 1 {
+			return "", e + resp.GetError()
+		}
+		return resp.File[0].GetContent(), ""
+	}
+	for _, rt := range corpus.Runtimes {
+		s, okS := byID[string(rt)+"/names"]
+		if !okS {
+			continue
+		}
+		base := "paths=source_relative,apiversion=" + rt.APIVersion()
+		plain, e0 := single(s, base)
+		if e0 != "" || !strings.Contains(plain, ".Reset_") || !strings.Contains(plain, ".String_") {
+			continue // reported above / the schema has no such fields
+		}
+		for _, c := range []struct {
+			spelled, sig string
+			names        []string
+		}{
+			{"specialname=Reset_", "single", []string{"Reset_"}},
+			{"specialname= Reset_ ", "blanks-around-the-name", []string{"Reset_"}},
+			{"specialname=Reset_,specialname=String_", "option-given-twice", []string{"Reset_", "String_"}},
+			{"specialname=NoSuchField", "name-that-matches-nothing", nil},
+		} {
+			param := base + "," + strings.ReplaceAll(c.spelled, ";", ",")
+			want := plain
+			for _, n := range c.names {
+				want = strings.ReplaceAll(want, "."+n, "."+n+"_")
+			}
+			got, e := single(s, param)
+			if e != "" || got != want {
+				r.Fail(fmt.Sprintf("C16/specialname-option/%s/%s", rt, c.sig), string(rt)+"/names|"+param, map[string]any{"error": e, "differs": got != want,
+					"references_renamed": strings.Count(got, ".Reset__"), "references_expected": strings.Count(want, ".Reset__")})
+			}
+		}
+	}
+	for _, id := range []string{"gogo/p3", "legacy/p2", "gv2/p3"} {
+		s, okS := byID[id]
+		if !okS {
+			continue
+		}
+		explicit, e1 := single(s, "paths=source_relative,apiversion=v1")
+		dflt, e2 := single(s, "paths=source_relative")
+		if e1 != e2 || explicit != dflt {
+			r.Fail("C16/default-apiversion-is-not-v1/"+id, id, map[string]any{"error_explicit": e1, "error_default": e2})
+		}
+	}
+	r.Set("option_semantics_requests", optReqs)
 	r.Set("multi_file_requests", multiReqs)
 	r.Set("multi_file_outputs_compared_with_single_file_requests", multiFiles)
 	r.Set("function_bodies_compared_single_vs_permessage", bodiesCompared)
